@@ -16,7 +16,7 @@ theorem innerOf_splice (l : LayerSem) (region mid : Bytes)
   have h1 : (region.take l.hdr).length = l.hdr := by simp only [List.length_take]; omega
   rw [List.append_assoc, List.drop_append_of_le_length (by omega)]
   have : l.hdr - (region.take l.hdr).length = 0 := by omega
-  simp only [h1, Nat.sub_self, List.drop_zero, List.drop_eq_nil_of_le (Nat.le_of_eq h1), List.nil_append]
+  simp only [List.drop_eq_nil_of_le (Nat.le_of_eq h1), List.nil_append]
   rw [← hm, List.take_left']
   rfl
 
@@ -35,7 +35,7 @@ theorem serializeInto_ok (ls : List LayerSem) (hall : ∀ l ∈ ls, WritesOnly l
     have hsl : (splice region l.hdr io).length = region.length := splice_length _ _ _ (by omega)
     rcases hall l (List.mem_cons_self) (splice region l.hdr io) (by omega) with ⟨out, ho, hol, _⟩
     refine ⟨out, ?_, by omega⟩
-    simp only [serializeInto, hio, Out.bind_ok, bind, Out.bind] at *
+    simp only [serializeInto, hio, bind, Out.bind] at *
     exact ho
 
 theorem serialize_ok (ls : List LayerSem) (hall : ∀ l ∈ ls, WritesOnly l) :
